@@ -80,6 +80,8 @@ pub enum Ev {
     /// the READ sent last is sent again, byte for byte, while an unsolicited response awaits its
     /// confirm (no effect in any other situation)
     RepeatRead,
+    /// a READ whose object header names an unknown object (answered with an error indication)
+    BadRead,
 }
 
 #[derive(Copy, Clone, Debug, PartialEq, Eq)]
@@ -983,6 +985,10 @@ impl Driver {
                 sent = Some(app::request(next_seq(&mut self.last_seq), fc::DELAY_MEASURE, &[]));
                 new_request = true;
             }
+            Ev::BadRead => {
+                sent = Some(app::request(next_seq(&mut self.last_seq), fc::READ, &[200, 0, 0x06]));
+                new_request = true;
+            }
             Ev::Reconnect => {
                 self.sim.reconnect();
                 reconnect = true;
@@ -1247,8 +1253,8 @@ pub fn replay(scenario: &str, path: &[usize]) -> Option<RunResult> {
     if scenario == super::c03x::PairedRelease.name() {
         return Some(super::c03x::PairedRelease.run(path[0], true));
     }
-    if scenario == super::c03x::EventVariations.name() {
-        return Some(super::c03x::EventVariations.run(path[0], true));
+    if scenario == (super::c03x::EventVariations { id: "C03" }).name() {
+        return Some(super::c03x::EventVariations { id: "C03" }.run(path[0], true));
     }
     if scenario == (super::c03x::Capacities { id: "C03" }).name() {
         return Some(super::c03x::Capacities { id: "C03" }.run(path[0], true));
@@ -1271,7 +1277,7 @@ pub fn check(tier: &str) -> i32 {
     }
     c.cases(&super::c03x::PerType);
     c.cases(&super::c03x::Capacities { id: "C03" });
-    c.cases(&super::c03x::EventVariations);
+    c.cases(&super::c03x::EventVariations { id: "C03" });
     c.cases(&super::c03x::PairedRelease);
     for s in super::c03x::series(tier) {
         c.explore(&s);
